@@ -41,7 +41,10 @@ def gen_bool(rng, types, depth=1, allow_or=True):
             t2 = "i64" if ty == "i32" else ty
             return ("between", col(i), lit_of(rng, t2), lit_of(rng, t2), rng.random() < 0.3)
         if k < 0.45 and ty == "str":
-            return ("like", col(i), lit(rng.choice(["a%", "%b", "%a%", "_", "a_", "%", ""])), rng.random() < 0.3)
+            return ("like", col(i), lit(rng.choice(["a%", "%b", "%a%", "_", "a_", "%", "",
+                                                    # prefix%suffix whose prefix and suffix OVERLAP in short strings ('aba' LIKE 'ab%ba' is
+                                                    # false): added after seeded change seeded/C01
+                                                    "ab%ba", "a%a", "ab%b", "a%b", "é%é"])), rng.random() < 0.3)
         same = [j for j, t in enumerate(types) if j != i and (t == ty or {t, ty} <= {"i64", "i32"})]
         if same and k < 0.6:
             return ("cmp", rng.choice(["CEq", "CNe", "CLt", "CGe"]), col(i), col(rng.choice(same)))
